@@ -52,3 +52,16 @@ package ggql
 //@   ensures[restore-dirs] err != nil ==> root.dirs == old(root.dirs)
 //@   ensures[restore-schema] err != nil ==> root.schema == old(root.schema)
 //@   ensures[working-copy] err == nil ==> fresh(root.types) && fresh(root.dirs)
+
+//@ -- the schema object is derived from the type table only while there is none: an existing one (from an earlier load) is
+//@ -- never replaced by assureSchema, so a later failing load cannot re-point the operation roots through it
+//@ func (*Root).assureSchema
+//@   props C14 C03
+//@   check panic {C03}
+//@   check frame {C14}
+//@   requires root != nil && root.types != nil
+//@   ensures[kept-when-present] old(root.schema) != nil ==> root.schema == old(root.schema)
+//@   ensures[present] root.schema != nil
+//@   ensures[derived-when-missing] old(root.schema) == nil ==> fresh(root.schema)
+//@   assigns fresh, root.schema
+//@   loop 0: invariant[new-schema] old(root.schema) == nil && root.schema != nil && fresh(root.schema) && fresh(root.schema.fields.dict) && root.types == old(root.types)
